@@ -113,9 +113,9 @@ def check(ctx):
     ctx.ob("C04.R6.shuffle", f"{f.qualname}|seeded permutation of the reporting units", ok_shuf, f.where(),
            "reporting units are permuted with sample(frac=1, random_state=self.seed)" if ok_shuf else f"shuffle is {ir.show(sh, maxdepth=3)}")
     trn = symexpr.Normalizer(leaf=_leaf_tr).norm(TR)
-    want_tr = symexpr.Normalizer().norm(symexpr.parse("floor(n_train * round(min(1 - (1 + alpha) / (n_reporting * (1 - alpha)), 0.9), 2))"))
-    ctx.ob("C04.R6.train-rows", f"{f.qualname}|training rows = floor(n_train * fraction)", trn == want_tr, f.where(),
-           "number of training rows = floor(n_train * round(min(1 - (1+alpha)/(n(1-alpha)), 0.9), 2))" if trn == want_tr
+    want_tr = symexpr.Normalizer().norm(symexpr.parse("max(floor(n_train * round(min(1 - (1 + alpha) / (n_reporting * (1 - alpha)), 0.9), 2)), 1)"))
+    ctx.ob("C04.R6.train-rows", f"{f.qualname}|training rows = max(floor(n_train * fraction), 1)", trn == want_tr, f.where(),
+           "number of training rows = max(floor(n_train * round(min(1 - (1+alpha)/(n(1-alpha)), 0.9), 2)), 1)" if trn == want_tr
            else f"training rows = {trn.key()}, documented {want_tr.key()}")
     # calibration frame --------------------------------------------------------------------------------
     cal = CONF
